@@ -18,6 +18,9 @@ CHECKS = {
  "C08": ("model_checking", "exhaustive order-type enumeration (E4) + explicit-state BFS of rotation histories in virtual time (E1) on the real rotation code",
          "Every weak ordering of the four stored validity instants and now (well-formed windows, at 1h and at 1ns spacing, so exact ties and +-1ns are cases) x lifetime/skew/reinitialize/clock configurations is run through the real RotateRootCertificates; the action taken must be one the property's decision table allows, promoted roots must be byte-identical, minted windows must equal now+skew..now+lifetime+skew shifted by exactly half the remaining life (frozen clock => equality), returned == reloaded, both roots self-signed CAs. Rotation/advance histories from empty storage are searched breadth-first with the same oracle.",
          "Ties may be decided either way; ill-formed windows and sub-2ns lifetime+skew are excluded as unreachable/meaningless.", "6/C08", "E4+E1"),
+ "C10": ("model_checking", "explicit-state BFS over the real RotateNodeCredentials (E1) against a reference predicate",
+         "From 8 initial stores, every rotation request in the product encrypting key x identification path x inner request variant, every replay of an honoured payload and removals of old records are executed (quick depth 3, thorough 4); a request may be honoured only if a consulted record's current or recorded previous shared key opens it and the inner request is a valid registration of an unregistered key; then the new record must carry the authenticating record's state, all other records stay byte-identical, the reply opens with that record's current shared key and no other pool key, and the inner credentials with the new key only; refused requests must leave storage byte-identical.",
+         "Forged = encrypted under another pool key. Revocation of the freshly rotated-in key followed by a replay is outside the alphabet.", "6/C10", "E1"),
  "C11": ("exploration", "bounded-exhaustive input enumeration (E4) of the real EncryptMessage/DecryptMessage",
          "All 8x8 sender/receiver key agreements in both directions for 5 message types x 3 sizes, all 8x8x8 current/previous receiver combinations, and for one envelope per message kind every single-bit flip, every truncation, every short BlobInfo, field deletions and all 1- and 2-byte envelopes are decrypted by the real code; the oracle is the property's (round trip iff secret and key id match; mutated => error or the original plaintext; never a panic).",
          "Cryptographic strength of X25519/AES-GCM is trusted; multi-byte random mutations are not claimed.", "6/C11", "E4"),
